@@ -331,6 +331,11 @@ def _tok(rng, used, prefix=None):
     while True:
         p = prefix or rng.choice(["ch", "s", "acc", "N", "p_", "Ch."])
         s = f"{p}{rng.randint(1, 99)}" + rng.choice(["", "", "_x", "_1", "b"])
+        if prefix is None and rng.random() < 0.2:
+            # labels are arbitrary strings: numeric-looking, with blanks, non-ASCII, differing only in case or by a prefix,
+            # with characters that are special in patterns
+            k = rng.randint(1, 12)
+            s = rng.choice([f"{k}", f"0{k}", f"ch {k}", f"Δ{k}", f"CH{k}", f"ch{k}", f"s{k}", f"s{k}0", f"a.b{k}", f"a+b{k}", f"({k})", f"x[{k}]", f"{k}.0", f"n|{k}", f"ä{k}ß"])
         if s not in used and not s.startswith("REF"):
             used.add(s)
             return s
